@@ -3,6 +3,7 @@ import Driver.Proto
 import GraphSlam.Model.Chi2
 import GraphSlam.Model.Ctl
 import Driver.Asm
+import Driver.Iter
 import GraphSlam.Model.NumJac
 
 /-! Model driver: one request per input line, one reply per output line.
@@ -11,6 +12,7 @@ import GraphSlam.Model.NumJac
   names                                  list generated definitions
   sum <hexfloat>*                        Model.graphChi2 (Python `sum`) at Float
   asm <graph snapshot>                   Model.contribs / accumulate / fillGradient / fillHessian (see Driver/Asm.lean)
+  iter <typed graph> <dx>                Model.step: one whole iteration on a typed graph (see Driver/Iter.lean)
   fixedidx <ffp> <n> <flag>*n <gidx>*n   flags after fix_first_pose and the fixed gradient-index set (graph.py:429-433)
   fd <eps> <m> <err0>*m <errd>*m         Model.fdColumn: one column of the numerical Jacobian
   ctl <tol> <eps> <maxIter> <chi2>*      Model.optimizeCtl: the report of Graph.optimize from the chi2 sequence
@@ -45,16 +47,15 @@ def handle (line : String) : String :=
       | .error _ => "err IndexError"
     | _, _, _, _ => "err bad-args"
   | "asm" :: rest => handleAsm rest
+  | "iter" :: rest => handleIter rest
   | "fixedidx" :: ffp :: n :: rest =>
     -- head of optimize(): flags' = applyFixFirst ffp flags ; fixed index set = indices of flagged vertices
     match n.toNat?, (rest.mapM String.toNat?) with
     | some n, some xs =>
       let flags := (xs.take n).map (· != 0)
       let gidx := xs.drop n
-      let flags' := match ffp == "1", flags with
-        | true, _ :: tl => true :: tl
-        | _, fl => fl
-      let fixed := ((flags'.zip gidx).filter (·.1)).map (·.2)
+      let flags' := GraphSlam.Model.applyFixFirst (ffp == "1") flags
+      let fixed := GraphSlam.Model.fixedIndices flags' gidx
       "ok " ++ " ".intercalate (flags'.map fun b => if b then "1" else "0") ++ " | " ++ " ".intercalate (fixed.map toString)
     | _, _ => "err bad-args"
   | "fd" :: eps :: m :: rest =>
